@@ -83,7 +83,7 @@ impl LayoutP {
             frames: match l.frames {
                 FrameEnc::Compact => 0,
                 FrameEnc::Full => 1,
-                FrameEnc::Mixed => 2,
+                FrameEnc::Mixed | FrameEnc::Cldc => 2,
             },
             p_frame_extended: l.p_frame_extended,
             split_line_numbers: l.split_line_numbers,
@@ -781,6 +781,26 @@ impl Engine for C01 {
         }
         let tj = p.target.min(inputs.len() - 1);
         let tb = &inputs[tj].enc.bytes;
+
+        // ---------------- the same class with its frames carried in the older CLDC `StackMap` attribute (absolute offsets,
+        // full frames, entries in descending order): the reader reports the same frames as for the StackMapTable form
+        // (missed seeded change C01-17). T0 only: the reference PARSER does not model that attribute.
+        if m.methods.iter().any(|me| me.code.as_ref().is_some_and(|c| c.frames.len() >= 2)) && out.is_empty() {
+            let layout = Layout { frames: FrameEnc::Cldc, ..Layout::default() };
+            if let Ok(enc) = encode(&m, &layout) {
+                st.probe("t0.cldc_stack_map");
+                match read_real(&mut Cursor::new(&enc.bytes[..])) {
+                    Out::Panic(pm) => out.push(Violation::new("T0", "panic", format!("read:{}", panic_id(&pm)), format!("{pm} [frames in a CLDC StackMap attribute]"))),
+                    Out::Refused(n, full) => out.push(Violation::new("T0", "refused-wellformed", format!("read-cldc-stackmap:{n}"), full)),
+                    Out::BadTree(e) => out.push(Violation::new("T0", "invalid-output", format!("tree:{}", bad_tree_path(&e)), format!("{e} [frames in a CLDC StackMap attribute]"))),
+                    Out::Ok(s) => {
+                        for path in diff_all(&m, &s) {
+                            out.push(Violation::new("T0", "semantic-mismatch", format!("cldc-stackmap.{path}"), format!("frames carried in a CLDC StackMap attribute: {}", first_dump_diff(&m, &s))));
+                        }
+                    }
+                }
+            }
+        }
 
         // ---------------- T1: legal behaviours only - identical result, exact byte accounting
         if let Some(io) = &p.legal {
